@@ -2,6 +2,7 @@ package c03
 
 import (
 	"fmt"
+	"net"
 	"net/netip"
 	"net/url"
 	"path"
@@ -31,7 +32,10 @@ type reqSpec struct {
 	Remote string    `json:"remote"`
 	Local  string    `json:"local"`
 	SNI    string    `json:"sni,omitempty"`
-	Path   string    `json:"path,omitempty"`
+	// Host is the HTTP Host header / :authority, when it differs from the
+	// address dialled.  It is NOT an identification channel.
+	Host string `json:"host_header,omitempty"`
+	Path string `json:"path,omitempty"`
 	// Userinfo: HasUser=false means no credentials at all.
 	HasUser bool   `json:"has_userinfo,omitempty"`
 	User    string `json:"user,omitempty"`
@@ -313,6 +317,19 @@ func (w *world) decide(rq *reqSpec) *decision {
 		default:
 			add(w.identClaim("sni", label, true, true))
 		}
+	}
+
+	// HTTP Host header: never a channel, whatever it names.
+	if rq.Host != "" {
+		h := rq.Host
+		if hh, _, err := net.SplitHostPort(h); err == nil {
+			h = hh
+		}
+		var carried *devSpec
+		if label, why := sniLabel(h, []string{domMain, domAlt}); why == "" && label != "" {
+			carried = w.devByID(strings.ToLower(label))
+		}
+		invalid("host-header", carried)
 	}
 
 	// Entitlement: the security direction.
